@@ -3,5 +3,8 @@ let handle = function
   | ["ccmp"; a; b] -> str_cmp (c17_ccmp (n_of_int (int_of_string a)) (n_of_int (int_of_string b)))
   | ["add"; a; b] -> show_outcome (fun x -> string_of_int (int_of_n x)) (c17_add (n_of_int (int_of_string a)) (n_of_int (int_of_string b)))
   | ["next"; a] -> show_outcome (fun x -> string_of_int (int_of_n x)) (c17_next (n_of_int (int_of_string a)))
+  | ["sigtime"; n; i; e] -> string_of_bool (c17_sigtime (n_of_int (int_of_string n)) (n_of_int (int_of_string i)) (n_of_int (int_of_string e)))
+  | ["uptodate"; q; z] -> string_of_bool (c17_uptodate (n_of_int (int_of_string q)) (n_of_int (int_of_string z)))
+  | ["diffrange"; a; b] -> string_of_bool (c17_diffrange (n_of_int (int_of_string a)) (n_of_int (int_of_string b)))
   | _ -> failwith "bad case line"
 let () = main handle
